@@ -80,7 +80,9 @@ const RSModel &rs_model(int m, int k, int n) {
     auto key = std::make_tuple(m, k, n);
     auto it = cache.find(key);
     if (it == cache.end()) {
-        if (cache.size() > 4000) cache.clear();
+        static size_t bytes = 0;
+        if (bytes > (48u << 20)) { cache.clear(); bytes = 0; }
+        bytes += (size_t)k * (size_t)(n - k) + 64;
         it = cache.emplace(key, std::make_unique<RSModel>(m, k, n)).first;
     }
     return *it->second;
@@ -115,7 +117,7 @@ std::shared_ptr<const BinCode> h5170(uint32_t k, uint32_t r, uint32_t N1, uint32
     auto key = std::make_tuple(k, r, N1, seed);
     auto it = cache.find(key);
     if (it != cache.end()) return it->second;
-    if (cache.size() > 256) cache.clear();
+    if (cache.size() > 48) cache.clear();
 
     auto c = std::make_shared<BinCode>();
     c->k = k; c->r = r;
